@@ -1,0 +1,18 @@
+//go:build verif
+
+package quic
+
+// C24, rangeset.add for sets of ANY size (the add/sub lemmas are bounded to at most two ranges):
+// the coalescing loop absorbs each following range it passes: after the step for range j the
+// merged range ends at or beyond the end of range j (so removing ranges i+1..j-1 afterwards loses
+// no member), the merged range never shrinks, and j advances by one. Partial contract: index
+// safety and the functional statement are left to the bounded lemmas.
+//
+//@ func (*rangeset[int64]).add(s, start, end)
+//@   partial nopanic, pre
+//@   loop 1 invariant true
+//@   loop 2 invariant i + 1 <= j && j <= len(*s) && 0 <= i && i < len(*s)
+//@   loop 2 step j == iterstart(j) + 1
+//@   loop 2 step (*s)[i].end >= atiter((*s)[iterstart(j)].end) && (*s)[i].end >= atiter((*s)[i].end)
+//@   loop 2 step (*s)[i].end == atiter((*s)[i].end) || (*s)[i].end == atiter((*s)[iterstart(j)].end)
+//@   noframe
